@@ -83,6 +83,20 @@ func (e *E) holes(dst []*E) []*E {
 	return dst
 }
 
+// all appends every expression below e, replaced or not.
+func (e *E) all(dst []*E) []*E {
+	if e == nil {
+		return dst
+	}
+	dst = append(dst, e)
+	for _, p := range e.P {
+		if s, ok := p.(*E); ok {
+			dst = s.all(dst)
+		}
+	}
+	return dst
+}
+
 // Node is a statement or a declaration.
 type Node struct {
 	Pre     *E
